@@ -154,6 +154,7 @@ func genOverlay(o overlayOpts) (string, string, error) {
 	for _, m := range o.extraMods {
 		mod += "\nrequire " + m + "\n"
 	}
+	mod += "\nrequire verif.local/fastgoid v0.0.0\nreplace verif.local/fastgoid => " + filepath.Join(o.verif, "mods", "fastgoid") + "\n"
 	modFile := filepath.Join(o.work, "go.mod")
 	if err := os.WriteFile(modFile, []byte(mod), 0o644); err != nil {
 		return "", "", err
